@@ -16,6 +16,7 @@ RULE = ("graphs from C08's workload biased to deep nesting (max_depth 3-5) so th
         "shares. Non-trivial: critical path with >= 3 of the 4 attribution cases or >= 3 bound_by classes. Distinct = hash of "
         "(trace, window, flag).")
 ASSUMPTIONS = ["reference hv/ref/cp.py trusted", "in-regime traces only (see C08)", "total path weight 0 is out of regime for the percentage clause"]
+FLOAT_KEYS = ["files"]          # fractional-time-unit workload class (hv/shard.py)
 PLAN = {"quick": {"shards": 16, "cases": 480, "timeout": 900}, "thorough": {"shards": 16, "cases": 5000, "timeout": 3400}}
 FLOORS = {"quick": {"distinct_nontrivial": 60, "breakdowns": 400, "attributed_edges": 4000, "case_start_start": 300, "case_start_end": 300,
                     "case_end_end": 300, "case_end_start": 100, "class_gpu_communication_bound": 20, "class_gpu_kernel_kernel_overhead": 50,
